@@ -170,6 +170,42 @@ def as_single_comp(path: Path, t: Term) -> Term:
     return t
 
 
+def unroll_comp(t: Term) -> Term:
+    """A comprehension without filter over a display is the display of its results: ``[row[0] for row in ((a, b), (b, a))]`` is ``[a, b]``."""
+    u = t
+    while u[0] == "var" and len(u) == 4:
+        u = u[3]
+    if u[0] == "comp" and u[1] in ("list", "gen", "set") and len(u[3]) == 1 and not u[3][0][1]:
+        dom = u[3][0][0]
+        d = dom
+        while d[0] == "var" and len(d) == 4:
+            d = d[3]
+        if d[0] in ("list", "tuple") and not any(x[0] == "star" for x in d[1]):
+            bs = set(subterms(u[2], lambda x: x[0] == "bound" and isinstance(x[1], int) and x[3] == show(dom)))
+            if len(bs) <= 1:
+                b = next(iter(bs), None)
+                return ("set" if u[1] == "set" else "list", tuple(subst(u[2], {b: x}) if b is not None else u[2] for x in d[1]))
+    return t
+
+
+def fuse_comp(t: Term) -> Term:
+    """``[f(x) for x in (g(y) for y in D if c(y)) if d(x)]`` is ``[f(g(y)) for y in D if c(y) if d(g(y))]``: a one-generator comprehension over a
+    one-generator comprehension (possibly held in a local name that is used nowhere else in ``t``) reads as one."""
+    while t[0] == "comp" and len(t[3]) == 1:
+        dom, conds = t[3][0]
+        inner = dom
+        while inner[0] == "var" and len(inner) == 4:
+            inner = inner[3]
+        if not (inner[0] == "comp" and inner[1] in ("gen", "list") and len(inner[3]) == 1):
+            break
+        outer_b = [x for x in subterms(("tuple", (t[2],) + tuple(conds)), lambda x: x[0] == "bound" and isinstance(x[1], int) and x[3] == show(dom))]
+        if len(set(outer_b)) > 1:
+            break
+        m = {outer_b[0]: inner[2]} if outer_b else {}
+        t = ("comp", t[1], subst(t[2], m), ((inner[3][0][0], tuple(inner[3][0][1]) + tuple(subst(c, m) for c in conds)),))
+    return t
+
+
 def concrete_list(path: Path, t: Term, depth: int = 0) -> Optional[List[Term]]:
     """The elements of a list whose length is fixed on this path: a display, a local list filled by append/extend of such lists, a
     concatenation of them, or a comprehension without filter over such a list."""
